@@ -102,6 +102,46 @@ Theorem C01_times_holds_outside_K : forall a b, canonical a && canonical b = tru
   m_dyad "eval_dyad_multiply" a b = s_dyad "eval_dyad_multiply" a b.
 Proof. exact times_holds_outside_K. Qed.
 Print Assumptions C01_times_holds_outside_K.
+Theorem C01_divide_holds_outside_K : forall a b, canonical a && canonical b = true ->
+  dom_dyad "eval_dyad_divide" a b = true -> k_dyad "eval_dyad_divide" a b = ""%string ->
+  m_dyad "eval_dyad_divide" a b = s_dyad "eval_dyad_divide" a b.
+Proof. exact divide_holds_outside_K. Qed.
+Print Assumptions C01_divide_holds_outside_K.
+Theorem C01_equal_holds_outside_K : forall a b v, canonical a && canonical b = true ->
+  dom_dyad "eval_dyad_equal" a b = true -> k_dyad "eval_dyad_equal" a b = ""%string ->
+  s_dyad "eval_dyad_equal" a b = Ok v -> m_dyad "eval_dyad_equal" a b = Ok v.
+Proof. exact equal_holds_outside_K. Qed.
+Print Assumptions C01_equal_holds_outside_K.
+Theorem C01_less_holds_outside_K : forall a b v, canonical a && canonical b = true ->
+  dom_dyad "eval_dyad_less" a b = true -> k_dyad "eval_dyad_less" a b = ""%string ->
+  s_dyad "eval_dyad_less" a b = Ok v -> m_dyad "eval_dyad_less" a b = Ok v.
+Proof. exact less_holds_outside_K. Qed.
+Print Assumptions C01_less_holds_outside_K.
+Theorem C01_more_holds_outside_K : forall a b v, canonical a && canonical b = true ->
+  dom_dyad "eval_dyad_more" a b = true -> k_dyad "eval_dyad_more" a b = ""%string ->
+  s_dyad "eval_dyad_more" a b = Ok v -> m_dyad "eval_dyad_more" a b = Ok v.
+Proof. exact more_holds_outside_K. Qed.
+Print Assumptions C01_more_holds_outside_K.
+Theorem C01_min_holds_outside_K : forall a b v, canonical a && canonical b = true ->
+  dom_dyad "eval_dyad_minimum" a b = true -> k_dyad "eval_dyad_minimum" a b = ""%string ->
+  s_dyad "eval_dyad_minimum" a b = Ok v -> m_dyad "eval_dyad_minimum" a b = Ok v.
+Proof. exact min_holds_outside_K. Qed.
+Print Assumptions C01_min_holds_outside_K.
+Theorem C01_max_holds_outside_K : forall a b v, canonical a && canonical b = true ->
+  dom_dyad "eval_dyad_maximum" a b = true -> k_dyad "eval_dyad_maximum" a b = ""%string ->
+  s_dyad "eval_dyad_maximum" a b = Ok v -> m_dyad "eval_dyad_maximum" a b = Ok v.
+Proof. exact max_holds_outside_K. Qed.
+Print Assumptions C01_max_holds_outside_K.
+Theorem C01_remainder_holds_outside_K : forall a b v, canonical a && canonical b = true ->
+  dom_dyad "eval_dyad_remainder" a b = true -> k_dyad "eval_dyad_remainder" a b = ""%string ->
+  s_dyad "eval_dyad_remainder" a b = Ok v -> m_dyad "eval_dyad_remainder" a b = Ok v.
+Proof. exact remainder_holds_outside_K. Qed.
+Print Assumptions C01_remainder_holds_outside_K.
+Theorem C01_idiv_holds_outside_K : forall a b v, canonical a && canonical b = true ->
+  dom_dyad "eval_dyad_integer_divide" a b = true -> k_dyad "eval_dyad_integer_divide" a b = ""%string ->
+  s_dyad "eval_dyad_integer_divide" a b = Ok v -> m_dyad "eval_dyad_integer_divide" a b = Ok v.
+Proof. exact idiv_holds_outside_K. Qed.
+Print Assumptions C01_idiv_holds_outside_K.
 (* strings, characters and symbols are compared as wholes *)
 Theorem C01_less_atoms : forall a b, is_arr a = false -> is_arr b = false -> m_less a b = sc_less a b.
 Proof. exact less_atoms. Qed.
@@ -284,8 +324,6 @@ Theorem C01_homogenise_refuted : refutes_m "homogenise" "eval_monad_first" (VL [
 Proof. exact refuted_homogenise. Qed.
 Theorem C01_broadcast_refuted : refutes_d "broadcast" "eval_dyad_add" (VL [VI 1; VI 2]) m22 = true.
 Proof. exact refuted_broadcast. Qed.
-Theorem C01_reshape_nested_refuted : refutes_d "reshape-nested" "eval_dyad_reshape" (VL [VI 2]) (VL [VL [VI 1; VI 2; VI 3]]) = true.
-Proof. exact refuted_reshape_nested. Qed.
 Theorem C01_match_ints_refuted_without_fix : isclose_gen false (VI 100000) (VI 100001) = true /\ s_same (VI 100000) (VI 100001) = false.
 Proof. exact match_ints_without_fix. Qed.
 
